@@ -42,8 +42,12 @@ def _match(a, b, k):
 
 
 collations: dict[str, Callable[[str, str, str], bool]] = {
+    # bytes.upper() only folds the ASCII letters, which is exactly what
+    # RFC 4790 section 9.2 asks for; non-ASCII text is compared as is.
     "i;ascii-casemap": lambda a, b, k: _match(
-        a.encode("ascii").upper(), b.encode("ascii").upper(), k
+        a.encode("utf-8", "surrogateescape").upper(),
+        b.encode("utf-8", "surrogateescape").upper(),
+        k,
     ),
     "i;octet": lambda a, b, k: _match(a, b, k),
     # TODO(jelmer): Follow all rules as specified in
